@@ -183,7 +183,15 @@ def run_offset_rules(ctx, rep):
         b = cg.body(p)
         prods = [(bb, t) for bb, t, cal, c in b.calls() if cal and cal.endswith("SerdeRdh::load")]
         seeks = [(bb, t) for bb, t, cal, c in b.calls() if cal and cal.endswith("seek_to_next_rdh")]
-        rep.check(len(prods) == 1 and len(seeks) == 2, "R3.2", "R3.2|filter_loop|shape", "one RDH producer and two seeks (entry + loop)", p,
+        # two seeks (one before the loop with the parameter, one per iteration with the loaded RDH's offset) or one seek at
+        # the top of the loop fed by a variable that holds the parameter first and the loaded RDH's offset afterwards
+        one_seek = False
+        if len(prods) == 1 and len(seeks) == 1 and b.on_cycle(seeks[0][0]):
+            defs_ = b.origins(seeks[0][1]["args"][1])
+            from_param = [d_ for d_ in defs_ if d_ == ("param", 2, ())]
+            from_rdh = [d_ for d_ in defs_ if any(c[1] and c[1].endswith("RDH_CRU::offset_to_next") for c in origin_calls(d_)) and _origin_from_call_block(b, d_, prods[0][0])]
+            one_seek = len(defs_) == 2 and len(from_param) == 1 and len(from_rdh) == 1 and _cycle_passes(b, prods[0][0], seeks[0][0]) and b.dominates(seeks[0][0], prods[0][0])
+        rep.check(len(prods) == 1 and (len(seeks) == 2 or one_seek), "R3.2", "R3.2|filter_loop|shape", "one RDH producer; seeks: entry + loop, or one at the top of the loop fed by (parameter, then the loaded RDH's offset)", p,
                   "filter loop has %d producers / %d seeks" % (len(prods), len(seeks)))
         if len(prods) == 1 and len(seeks) == 2:
             pb = prods[0][0]
